@@ -13,15 +13,17 @@ func (e *Exec) bankInit(st *State) {
 		if st.Init != nil && st.Init.bank != nil {
 			// another fork of this chain state already named the initial ledgers
 			b := st.Init.bank
-			st.Bal, st.Sup, st.Acc, st.Meta = b[0], b[1], b[2], b[3]
+			st.Bal, st.Sup, st.Acc, st.Meta, st.MetaB, st.MetaD = b[0], b[1], b[2], b[3], b[4], b[5]
 			return
 		}
 		st.Bal = e.fresh(st.Prefix+"bank.balances0", balSort)
 		st.Sup = e.fresh(st.Prefix+"bank.supply0", supSort)
 		st.Acc = e.fresh(st.Prefix+"auth.accounts0", accSort)
 		st.Meta = e.fresh(st.Prefix+"bank.denomMeta0", metaSort)
+		st.MetaB = e.fresh(st.Prefix+"bank.denomMetaBase0", strMapSort)
+		st.MetaD = e.fresh(st.Prefix+"bank.denomMetaDisplay0", strMapSort)
 		if st.Init != nil {
-			st.Init.bank = []*Term{st.Bal, st.Sup, st.Acc, st.Meta}
+			st.Init.bank = []*Term{st.Bal, st.Sup, st.Acc, st.Meta, st.MetaB, st.MetaD}
 		}
 	}
 }
@@ -243,7 +245,37 @@ func init() {
 		// Metadata.Base is field index 2 (Description, DenomUnits, Base, ...)
 		base := md.F[2].(*Term)
 		c.St.Meta = sto(c.St.Meta, base, True)
+		c.St.MetaB = sto(c.St.MetaB, base, base)
+		if disp, ok := md.F[3].(*Term); ok { // Display
+			c.St.MetaD = sto(c.St.MetaD, base, disp)
+		}
 		return nil
+	}
+	models[bk+"GetDenomMetaData"] = func(e *Exec, a []Value) []Value {
+		c := ctxOf(e, a[1])
+		e.bankInit(c.St)
+		d := asTerm(e, a[2])
+		mdT := e.W.typeByName("github.com/cosmos/cosmos-sdk/x/bank/types", "Metadata")
+		md := e.zero(mdT).(*StructV)
+		if !e.decideBool(sel(c.St.Meta, d, BoolSort)) {
+			return []Value{md, False}
+		}
+		// stored under its base denom; the other string fields are whatever was stored (functions of the denom)
+		st := mdT.Underlying().(*types.Struct)
+		for i := 0; i < st.NumFields(); i++ {
+			if !isString(st.Field(i).Type()) {
+				continue
+			}
+			switch st.Field(i).Name() {
+			case "Base":
+				md.F[i] = d
+			case "Display":
+				md.F[i] = sel(c.St.MetaD, d, StrSort)
+			default:
+				md.F[i] = App("bank.meta."+st.Field(i).Name(), StrSort, d)
+			}
+		}
+		return []Value{md, True}
 	}
 
 	ak := "authkeeper."
